@@ -1,8 +1,11 @@
 package props
 
 import (
+	"encoding/json"
 	"fmt"
 	"math/big"
+
+	"github.com/tuneinsight/lattigo/v6/circuits/ckks/bootstrapping"
 
 	"github.com/tuneinsight/lattigo/v6/circuits/ckks/dft"
 	"github.com/tuneinsight/lattigo/v6/circuits/ckks/mod1"
@@ -207,6 +210,7 @@ func (b binOnly[T, PT]) BinarySize() int {
 	return len(d)
 }
 func (b binOnly[T, PT]) MarshalBinary() ([]byte, error) { return b.V.MarshalBinary() }
+func (b binOnly[T, PT]) unwrap() any                    { return b.V }
 func (b binOnly[T, PT]) UnmarshalBinary(p []byte) error  { return b.V.UnmarshalBinary(p) }
 
 func entryOf[T any, PT interface {
@@ -248,6 +252,26 @@ func binEntryOf[T any, PT interface {
 			}
 			return false, false
 		},
+	}
+}
+
+// jsonOnly adapts a type that is serialized through encoding/json only (parameter literals).
+type jsonOnly[T any] struct{ V *T }
+
+func (j jsonOnly[T]) BinarySize() int {
+	d, _ := json.Marshal(j.V)
+	return len(d)
+}
+func (j jsonOnly[T]) MarshalBinary() ([]byte, error) { return json.Marshal(j.V) }
+func (j jsonOnly[T]) UnmarshalBinary(p []byte) error  { return json.Unmarshal(p, j.V) }
+func (j jsonOnly[T]) unwrap() any                    { return j.V }
+
+func jsonEntryOf[T any](name string, gen func(g *c08Gen) *T) c08Entry {
+	return c08Entry{
+		Name:  name,
+		Gen:   func(g *c08Gen) ser { return jsonOnly[T]{gen(g)} },
+		New:   func() ser { return jsonOnly[T]{new(T)} },
+		Equal: func(a, b ser) (bool, bool) { return false, false },
 	}
 }
 
@@ -418,6 +442,59 @@ func c08Catalog() []c08Entry {
 				Scaling: float64(g.ch.Draw("m1-scaling", 100)) / 4, LogMessageRatio: g.ch.Draw("m1-ratio", 10), K: 1 + g.ch.Draw("m1-K", 30), Mod1Degree: 1 + g.ch.Draw("m1-deg", 60),
 				DoubleAngle: g.ch.Draw("m1-da", 4), Mod1InvDegree: g.ch.Draw("m1-inv", 8)}
 		}),
+		jsonEntryOf("rlwe.ParametersLiteral", func(g *c08Gen) *rlwe.ParametersLiteral {
+			l := g.params.ParametersLiteral()
+			return &l
+		}),
+		jsonEntryOf("bgv.ParametersLiteral", func(g *c08Gen) *bgv.ParametersLiteral {
+			return &bgv.ParametersLiteral{LogN: g.spec.LogN, Q: g.params.Q(), P: g.params.P(), PlaintextModulus: 0x101,
+				Xe: ring.DiscreteGaussian{Sigma: 3.2, Bound: 19.2}, Xs: []ring.DistributionParameters{ring.Ternary{P: 0.5}, ring.Ternary{H: 1 + g.ch.Draw("lit-H", 16)}}[g.ch.Draw("lit-xs", 2)]}
+		}),
+		jsonEntryOf("ckks.ParametersLiteral", func(g *c08Gen) *ckks.ParametersLiteral {
+			return &ckks.ParametersLiteral{LogN: g.spec.LogN, LogQ: g.spec.LogQ, LogP: g.spec.LogP, LogDefaultScale: 10 + g.ch.Draw("lit-logscale", 40),
+				RingType: []ring.Type{ring.Standard, ring.ConjugateInvariant}[g.ch.Draw("lit-ringtype", 2)], Xs: ring.Ternary{H: 1 + g.ch.Draw("lit-H", 16)}}
+		}),
+		binEntryOf("bootstrapping.ParametersLiteral", func(g *c08Gen) *bootstrapping.ParametersLiteral {
+			ip := func(name string, lo, n int) *int {
+				if g.ch.Bool(name + "-set") {
+					v := lo + g.ch.Draw(name, n)
+					return &v
+				}
+				return nil
+			}
+			l := &bootstrapping.ParametersLiteral{LogN: ip("btp-logn", 10, 7), LogSlots: ip("btp-logslots", 1, 12), EvalModLogScale: ip("btp-evalmod", 40, 21),
+				EphemeralSecretWeight: ip("btp-h", 0, 64), LogMessageRatio: ip("btp-ratio", 2, 10), K: ip("btp-K", 8, 32), Mod1Degree: ip("btp-deg", 10, 60),
+				DoubleAngle: ip("btp-da", 0, 4), Mod1InvDegree: ip("btp-inv", 0, 8), Mod1Type: mod1.Type(g.ch.Draw("btp-mod1", 3))}
+			if g.ch.Bool("btp-logp") {
+				l.LogP = []int{61, 55 + g.ch.Draw("btp-logp-v", 6)}
+			}
+			if g.ch.Bool("btp-c2s") {
+				l.CoeffsToSlotsFactorizationDepthAndLogScales = [][]int{{56}, {56, 40 + g.ch.Draw("btp-c2s-v", 16)}}
+				l.SlotsToCoeffsFactorizationDepthAndLogScales = [][]int{{39}, {39}, {39}}
+			}
+			if g.ch.Bool("btp-xs") {
+				l.Xs = ring.Ternary{H: 32 + g.ch.Draw("btp-xs-h", 200)}
+				l.Xe = ring.DiscreteGaussian{Sigma: 3.2, Bound: 19.2}
+			}
+			if g.ch.Bool("btp-iter") {
+				l.IterationsParameters = &bootstrapping.IterationsParameters{BootstrappingPrecision: []float64{25, 25.5}, ReservedPrimeBitSize: 20 + g.ch.Draw("btp-iter-v", 20)}
+			}
+			return l
+		}),
+		entryOf("bootstrapping.EvaluationKeys", func(g *c08Gen) *bootstrapping.EvaluationKeys {
+			opt := func(name string) *rlwe.EvaluationKey {
+				if g.ch.Bool(name) {
+					return g.evk()
+				}
+				return nil
+			}
+			k := &bootstrapping.EvaluationKeys{EvkN1ToN2: opt("btk-n1n2"), EvkN2ToN1: opt("btk-n2n1"), EvkRealToCmplx: opt("btk-r2c"), EvkCmplxToReal: opt("btk-c2r"),
+				EvkDenseToSparse: opt("btk-d2s"), EvkSparseToDense: opt("btk-s2d")}
+			if g.ch.Bool("btk-keyset") {
+				k.MemEvaluationKeySet = g.keySet()
+			}
+			return k
+		}),
 		// multiparty shares
 		entryOf("multiparty.PublicKeyGenShare", func(g *c08Gen) *multiparty.PublicKeyGenShare {
 			s := multiparty.NewPublicKeyGenProtocol(g.params).AllocateShare()
@@ -468,8 +545,10 @@ func c08Catalog() []c08Entry {
 	}
 	for i := range es {
 		switch es[i].Name {
-		case "structs.Map[uint64,rlwe.GaloisKey]", "rlwe.MemEvaluationKeySet", "polynomial.PowerBasis":
+		case "structs.Map[uint64,rlwe.GaloisKey]", "rlwe.MemEvaluationKeySet", "polynomial.PowerBasis", "bootstrapping.EvaluationKeys":
 			es[i].Keyed = true
+		case "rlwe.MetaData", "rlwe.PlaintextMetaData", "rlwe.CiphertextMetaData", "rlwe.Scale", "rlwe.Parameters", "bgv.Parameters", "ckks.Parameters", "ring.Ring":
+			es[i].JSON = true
 		}
 	}
 	seen := map[string]bool{}
